@@ -168,6 +168,7 @@ type Node struct {
 	State  storage.StateStorer
 	Retr   *retrieval.Service
 	NS     *netstore.Store
+	Fault  *faultStorer // the storer netstore reads through: n.DB behind a pass-through wrapper with an armable read fault
 	Trav   traversal.Traverser
 	Pin    *pinning.Service
 	CI     *chunkinfo.ChunkInfo
@@ -198,7 +199,8 @@ func New(addr []byte) (*Node, error) {
 		return nil, err
 	}
 	n.Retr = retrieval.New(n.Addr, n.Str, openRoute{}, db, true, n.Logger, nil, mock.NewAccounting(), subscribe.NewSubPub())
-	n.NS = netstore.New(db, n.Retr, n.Logger, n.Addr)
+	n.Fault = &faultStorer{Storer: db}
+	n.NS = netstore.New(n.Fault, n.Retr, n.Logger, n.Addr)
 	n.Trav = traversal.New(n.NS)
 	n.Pin = pinning.NewService(db, n.State, n.Trav)
 	if err := n.startChunkInfo(); err != nil {
@@ -514,6 +516,52 @@ func (n *Node) FetchChunks(root boson.Address, path string, ranges [][2]int64) (
 func (n *Node) GetUnderRoot(root, addr boson.Address, mode storage.ModeGet) error {
 	_, err := n.NS.Get(sctx.SetRootHash(context.Background(), root), mode, addr)
 	return err
+}
+
+// errInjectedRead is what the fault-injecting storer answers for the armed address: any error that is not
+// storage.ErrNotFound (an I/O error, a closed database, a cancelled context ... look the same to netstore).
+var errInjectedRead = errors.New("verif: injected read fault")
+
+// faultStorer is the storer handed to netstore.New: localstore behind a pass-through wrapper.  While an
+// address is armed, Get of exactly that address fails with errInjectedRead without reaching localstore
+// (no access-time update, no gc index change); everything else is forwarded unchanged.
+type faultStorer struct {
+	storage.Storer
+	mu    sync.Mutex
+	armed boson.Address // zero = no fault
+	hits  int
+}
+
+func (f *faultStorer) Get(ctx context.Context, mode storage.ModeGet, addr boson.Address) (boson.Chunk, error) {
+	f.mu.Lock()
+	hit := !f.armed.IsZero() && f.armed.Equal(addr)
+	if hit {
+		f.hits++
+	}
+	f.mu.Unlock()
+	if hit {
+		return nil, errInjectedRead
+	}
+	return f.Storer.Get(ctx, mode, addr)
+}
+
+// GetFaultUnderRoot is GetUnderRoot while the local read of exactly addr fails with a non-not-found error.
+// It returns netstore's error and how often the armed read was hit (at least once: the local read netstore.Get starts with).
+func (n *Node) GetFaultUnderRoot(root, addr boson.Address, mode storage.ModeGet) (error, int) {
+	f := n.Fault
+	f.mu.Lock()
+	f.armed, f.hits = addr, 0
+	f.mu.Unlock()
+	defer func() {
+		f.mu.Lock()
+		f.armed = boson.ZeroAddress
+		f.mu.Unlock()
+	}()
+	_, err := n.NS.Get(sctx.SetRootHash(context.Background(), root), mode, addr)
+	f.mu.Lock()
+	hits := f.hits
+	f.mu.Unlock()
+	return err, hits
 }
 
 // AskChunkInfo sends the chunk-info request the node's discovery queue would send for root to
